@@ -319,6 +319,22 @@ class RxBench:
                     await cycle()
                 ctx.set(dut.usb_reset, 0)
 
+        async def do_domain_reset(n):
+            ctx.set(top.cd.rst, 1)
+            st["auto"] = 0.0
+            await cycle()                       # the registers take their reset values at the end of this cycle
+            ev.append({"e": "dreset", "t": st["cycle"]})
+            parser.reset()
+            st["idle"] = 0
+            if st["enabled"]:
+                st["exp"] = 0
+            else:
+                st["pend_rst"] = True
+            st.update(ignore=False, lbad_owed=False, credits=0, inflight_good=0)
+            for _ in range(max(0, n - 1)):
+                await cycle()
+            ctx.set(top.cd.rst, 0)
+
         async def do_reset_up(rst_len, down_after):
             """usb_reset strobes for rst_len cycles while enable is (still) high; optionally enable falls
             `down_after` cycles after the first cycle of the strobe."""
@@ -361,6 +377,13 @@ class RxBench:
                 elif k == "down":
                     await do_down(op[1], op[2])
                     await cycle()
+                elif k == "domain_reset":
+                    # ResetSignal("ss") for op[1] cycles (Env: no partner word shortly before / after)
+                    while st["cycle"] - st["last_word"] < 9 or words:
+                        await cycle()
+                    await do_domain_reset(op[1])
+                    for _ in range(12):
+                        await cycle()
                 elif k == "reset_up":
                     while st["cycle"] - st["last_word"] < 9 or words:     # Env: no partner word shortly before
                         await cycle()
@@ -447,6 +470,8 @@ class RxBench:
             _, reset, rst_len, tail = crash[:4]
             if reset == "up":
                 await do_reset_up(rst_len, crash[4] if len(crash) > 4 else None)
+            elif reset == "domain":
+                await do_domain_reset(rst_len)
             else:
                 await do_down(reset, rst_len, margin=False)
             await run_ops(tail)
@@ -553,6 +578,8 @@ def rx_script_from_behaviour(beh, rng, quiet_before_down):
             if quiet_before_down:
                 s.append(("quiet",))
             s.append(("reset_up", rng.choice([1, 1, 2, 4])))
+        elif k == "dreset":
+            s.append(("domain_reset", rng.choice([1, 1, 3])))
         elif k == "quiet":
             s.append(("quiet",))
         elif k in ("txs", "txe", "txe_stale"):
@@ -637,6 +664,9 @@ def rx_classify(trace, matched, status, meta):
     k = matched if status != "ok" else matched + 1
     pre = trace[:k]
     pattern = "other"
+    _nb = (meta or {}).get("buffer_count")
+    if _nb and _nb & (_nb - 1):
+        return {"clause": status, "pattern": "buffer_count_not_power_of_two", "group": "config"}
     if status.startswith("env_"):
         raise tlc.TLCError("stimulus left the Env assumptions (%s) at step %d: %s" % (status, k, pre[-3:]))
     # last link-down before the failing record, and USB-reset strobes after it
@@ -658,12 +688,35 @@ def rx_classify(trace, matched, status, meta):
         hd = [r for r in pre if r["e"] == "hdr"]
         if any(b.get("t0") is not None and b["t0"] == a["t"] + 1 for a, b in zip(hd, hd[1:])):
             pattern = "back_to_back_header"
+    nb = (meta or {}).get("buffer_count")
+    if nb and nb & (nb - 1):
+        pattern = "buffer_count_not_power_of_two"
     group = "other"
     if status in ("quiet_adv_lgood_missing", "adv_lgood_first", "lgood_seq", "lgood_not_owed", "lcrd_not_owed",
                   "lcrd_letter", "quiet_lcrd_missing", "stale_command_after_up", "quiet_queue_valid",
                   "consume_nothing_buffered", "lbad_not_owed", "lrty_not_owed", "keepalive_not_owed"):
         group = "readvertisement"
     return {"clause": status, "pattern": pattern, "group": group}
+
+
+# =====================================================================================================
+# Configuration coverage
+# =====================================================================================================
+# HeaderPacketReceiver(buffer_count, downstream_facing): powers of two 1, 2, 8 besides the default 4 (USB3 itself
+# only knows 4 buffers / letters A..D); keep-alive LUP (default) / LDN (downstream_facing).  A non-power-of-two
+# buffer_count is covered as well (pointer / letter wrap).
+# (quick tier: one of the first three, rotated by seed -- always downstream_facing and a non-default power of two --
+#  plus the non-power-of-two one; thorough tier: all)
+RX_ALT_CONFIGS = [(2, True), (8, True), (1, True), (3, False), (2, False), (8, False), (1, False)]
+# PacketTransmitter(buffer_count, ss_clock_frequency): 5 ms credit timeout = 625 001 cycles at the default 125 MHz;
+# 1 MHz (5 001 cycles, never reached in a run) and 20 kHz (101 cycles, reached by the directed timeout scenarios)
+TX_ALT_CONFIGS = [(2, 1e6), (1, 60e6), (8, 1e6), (3, 1e6), (4, 1e6)]    # quick: one of the first three + (3, 1e6)
+TX_TIMEOUT_FREQ = 20e3
+
+
+def _rotate(lst, seed, n):
+    k = seed % len(lst)
+    return (lst[k:] + lst[:k])[:n]
 
 
 # =====================================================================================================
@@ -682,7 +735,7 @@ def _rx_model_check(rep):
         cfg = tlc.render_cfg(_cfg("MCSsRx.cfg.tmpl"), {"NBuf": nbuf, "MaxAcc": maxacc, "MaxEpochs": maxep,
                                                        "Deltas": deltas, "WithReqs": reqs})
         res = tlc.model_check(SPEC_DIR, "MCSsRx", cfg, workers=8, timeout=1500,
-                              allow_uncovered=("MRetryReq", "MKaReq", "MResetUp") if reqs == "FALSE" else ())
+                              allow_uncovered=("MRetryReq", "MKaReq", "MResetUp", "MDReset") if reqs == "FALSE" else ())
         rep.add_mc("MCSsRx NBuf=%d MaxAcc=%d MaxEpochs=%d Deltas=%s WithReqs=%s" % (nbuf, maxacc, maxep, deltas, reqs),
                    res, {"NBuf": nbuf, "MaxAcc": maxacc, "MaxEpochs": maxep, "Deltas": deltas, "WithReqs": reqs})
 
@@ -742,7 +795,7 @@ def check_C37(rep):
     sim_cfg = _cfg("MCSsRx_sim.cfg.tmpl").replace("MaxEpochs = 1000", "MaxEpochs = 1")
     behs = tlc.simulate(SPEC_DIR, "MCSsRx", sim_cfg, num=40 if quick else 300, depth=60, seed=rep.seed * 11 + 3)
     for i, b in enumerate(behs):
-        script = [op for op in rx_script_from_behaviour(b, rep.rng, True) if op[0] not in ("down", "reset")]
+        script = [op for op in rx_script_from_behaviour(b, rep.rng, True) if op[0] not in ("down", "reset", "reset_up", "domain_reset")]
         tr, info = bench.run(script, rep.rng, stall_p=rep.rng.choice([0, 0, 0.3]), bubble_p=rep.rng.choice([0, 0.1]))
         items.append((tr, {"origin": "tlc-simulate", "n": i}))
     # (B) code -> spec: seeded-random histories beyond the model's bounds
@@ -769,6 +822,26 @@ def check_C37(rep):
         items.append((tr, {"origin": "witness-back-to-back", "n": i}))
     # systematic one-cycle alignments: partner / protocol-layer events around every DUT link command
     items += rx_event_sweeps(bench, rep, quick)
+    # other constructor configurations (one per quick run, rotated by seed; all in the thorough tier)
+    alt_groups = []
+    cfgs = _rotate(RX_ALT_CONFIGS[:3], rep.seed, 1) if quick else list(RX_ALT_CONFIGS)
+    if (3, False) not in cfgs:
+        cfgs.append((3, False))
+    for nb, df in cfgs:
+        b2 = RxBench(buffer_count=nb, downstream_facing=df)
+        g = []
+        fill = [("up",), ("quiet",)] + [("hdr", "good", 0, {"gap": 1})] * (nb + 2) + [("quiet",), ("consume", nb),
+                ("quiet",)] + [("hdr", "good", 0, {"gap": 1}), ("consume", 1)] * (2 * nb + 9) + [("ka_req",), ("quiet",)]
+        tr, info = b2.run(fill, rep.rng)           # consumer stalled until ALL buffers are full, then wrap
+        g.append((tr, {"origin": "config-fill-all-buffers", "buffer_count": nb, "downstream_facing": df}))
+        for i in range((4 if nb & (nb - 1) else 12) if quick else 40):
+            tr, info = b2.run(rx_random_script(rep.rng, 24), rep.rng, stall_p=rep.rng.choice([0, 0.3]))
+            g.append((tr, {"origin": "config-random", "buffer_count": nb, "downstream_facing": df, "n": i}))
+        for tr, _ in g:
+            _rx_nontriv(rep, tr)
+        rep.nontriv(("config", nb, df))
+        rep.add_eval(b2.cycles)
+        alt_groups.append((nb, 11 if df else 8, g))
     for tr, meta in items:
         _rx_nontriv(rep, tr)
     rep.add_eval(bench.cycles)
@@ -776,6 +849,8 @@ def check_C37(rep):
     rep.sample({"origin": items[-1][1], "events": items[-1][0][:14]})
     ph.mark("simulate+drive (%d traces, %d cycles)" % (len(items), bench.cycles))
     _rx_validate(rep, items, "HeaderPacketReceiver ")
+    for nb, ka, g in alt_groups:
+        _rx_validate(rep, g, "HeaderPacketReceiver(buffer_count=%d, keepalive=%d) " % (nb, ka), nbuf=nb, kacmd=ka)
     ph.mark("trace-validation")
     ph.done()
 
@@ -855,6 +930,50 @@ def check_C38(rep):
                 clean.append((tr, {"origin": "reset-while-up-sweep", "scenario": name, "cycle": c, "rst_len": rl,
                                    "down_after": da}))
                 rep.nontriv(("reset-up", name, c, rl, da))
+    # (1c) the `ss` clock-domain reset (ResetSignal) at every cycle of a base scenario, enable high or already low
+    for name, script, stall_p in rx_base_scenarios():
+        if name not in (("A",) if quick else ("A", "B-stall")):
+            continue
+        import random
+        seed = rep.seed * 1000 + 11
+        tr0, info0 = bench.run(script, random.Random(seed), stall_p=stall_p)
+        for c in rx_crash_points(info0, every=1):
+            if quick and c % 2:
+                continue
+            n = 1 + (c % 3)
+            tr, info = bench.run(script, random.Random(seed), crash=(c, "domain", n, RX_TAIL[1:]), stall_p=stall_p)
+            clean.append((tr, {"origin": "domain-reset-sweep", "scenario": name, "cycle": c, "rst_len": n}))
+            rep.nontriv(("domain-reset", name, c, n))
+    clean.append((bench.run([("up",), ("quiet",), ("hdr", "good", 0, {"gap": 2}), ("quiet",), ("down", False, 0),
+                             ("wait", 10), ("domain_reset", 2), ("wait", MIN_DOWN), ("up",)] + RX_TAIL[1:], rep.rng)[0],
+                  {"origin": "domain-reset-while-down"}))
+    # (1d) another constructor configuration (rotated by seed; all in the thorough tier): link-down / reset sweep
+    alt_groups = []
+    pow2 = [c for c in RX_ALT_CONFIGS if not c[0] & (c[0] - 1)]      # (the non-power-of-two finding belongs to C37)
+    for nb, df in (_rotate(pow2[:3], rep.seed + 1, 1) if quick else pow2):
+        b2 = RxBench(buffer_count=nb, downstream_facing=df)
+        g = []
+        import random
+        name, script, stall_p = rx_base_scenarios()[0]
+        seed = rep.seed * 1000 + 13
+        tr0, info0 = b2.run(script, random.Random(seed), stall_p=stall_p)
+        g.append((tr0, {"origin": "config-base", "buffer_count": nb, "downstream_facing": df}))
+        for c in rx_crash_points(info0, every=4 if quick else 2):
+            mode = c % 3
+            if mode == 0:
+                cr = (c, bool(c % 2), 1, [("wait", MIN_DOWN)] + RX_TAIL)
+            elif mode == 1:
+                cr = (c, "up", 1 + (c % 2), RX_TAIL[1:], None)
+            else:
+                cr = (c, "domain", 1, RX_TAIL[1:])
+            tr, info = b2.run(script, random.Random(seed), crash=cr, stall_p=stall_p)
+            g.append((tr, {"origin": "config-crash-sweep", "buffer_count": nb, "downstream_facing": df, "cycle": c,
+                           "mode": str(cr[1])}))
+        for tr, _ in g:
+            _rx_nontriv(rep, tr)
+        rep.nontriv(("config", nb, df))
+        rep.add_eval(b2.cycles)
+        alt_groups.append((nb, 11 if df else 8, g))
     # (2) TLC-simulated behaviours with down/reset/up: once with the DUT left to go idle before each link-down
     #     (clean) and once exactly as generated (link-down wherever the behaviour has it)
     behs = tlc.simulate(SPEC_DIR, "MCSsRx", _cfg("MCSsRx_sim.cfg.tmpl"), num=40 if quick else 300, depth=70,
@@ -878,6 +997,8 @@ def check_C38(rep):
     rep.notes.append("clean traces: %d, witness-class traces: %d" % (len(clean), len(witness)))
     ph.mark("simulate+drive (%d traces, %d cycles)" % (len(clean) + len(witness), bench.cycles))
     _rx_validate(rep, clean + witness, "HeaderPacketReceiver ")
+    for nb, ka, g in alt_groups:
+        _rx_validate(rep, g, "HeaderPacketReceiver(buffer_count=%d, keepalive=%d) " % (nb, ka), nbuf=nb, kacmd=ka)
     ph.mark("trace-validation")
     ph.done()
 
@@ -901,12 +1022,26 @@ class TxBench:
     transmitter does not hold the PHY (the layer's arbiter serialises the two sources).
     """
 
-    def __init__(self):
+    def __init__(self, buffer_count=4, ss_clock_frequency=None):
         use_repo()
+        from amaranth import Elaboratable, Module, ClockDomain
         from amaranth.sim import Simulator
         from luna.gateware.usb.usb3.link.transmitter import PacketTransmitter
-        self.dut = PacketTransmitter()
-        self.sim = Simulator(self.dut)
+        kw = {} if ss_clock_frequency is None else {"ss_clock_frequency": ss_clock_frequency}
+        self.nbuf = buffer_count
+        self.dut = dut = PacketTransmitter(buffer_count=buffer_count, **kw)
+        # what the documentation promises: 5 ms [USB3.2 7.2.4.1.13] at the given clock
+        self.timeout_cycles = int(5e-3 * (ss_clock_frequency or 125e6) + 1)
+        self.cd = cd = ClockDomain("ss")
+
+        class Top(Elaboratable):
+            def elaborate(self, platform):
+                m = Module()
+                m.domains.ss = cd               # explicit, so that the domain reset can be driven
+                m.submodules.dut = dut
+                return m
+
+        self.sim = Simulator(Top())
         self.sim.add_clock(8e-9, domain="ss")
         self._first = True
         self._job = None
@@ -936,7 +1071,7 @@ class TxBench:
               "lrty": None,                 # None | ["wait", n] | ["send", n]   emulated receiver side
               # partner mirror (stimulus legality only)
               "bringup": False, "next_ack": 0, "sent_unacked": [], "letter": 0, "held": 0, "given": 0,
-              "p_ignoring": False}
+              "p_ignoring": False, "nbuf": self.nbuf}
         words = []
 
         def log(rec):
@@ -1108,6 +1243,20 @@ class TxBench:
                     st["offer"] = None
                     log({"e": "down"})
                     await cycle()
+                elif k == "domain_reset":
+                    while words:
+                        await cycle()
+                    ctx.set(self.cd.rst, 1)
+                    await cycle()
+                    log({"e": "dreset"})
+                    parser.reset()
+                    ctx.set(dut.lrty_pending, 0)
+                    st.update(bringup=False, sent_unacked=[], letter=0, held=0, given=0, p_ignoring=False,
+                              lrty=None, offer=None)
+                    for _ in range(max(0, op[1] - 1)):
+                        await cycle()
+                    ctx.set(self.cd.rst, 0)
+                    await cycle()
                 elif k == "wait":
                     for _ in range(op[1]):
                         await cycle()
@@ -1151,11 +1300,11 @@ class TxBench:
     @staticmethod
     def _resolve_sub(st, cmd, sub):
         """'ok' -> the number/letter a well-behaved partner would send now (None if it has nothing to send)."""
-        if isinstance(sub, tuple) and sub[1] == 0:
-            sub = "ok"
+        if isinstance(sub, tuple) and sub[1] % (8 if cmd == P.LGOOD else st["nbuf"]) == 0:
+            sub = "ok"                        # (not a mismatch in this configuration)
         if isinstance(sub, tuple):            # ("rel", d): d away from what the DUT expects (d != 0: mismatch)
             base = st["next_ack"] if cmd == P.LGOOD else st["letter"]
-            return (base + sub[1]) % (8 if cmd == P.LGOOD else 4)
+            return (base + sub[1]) % (8 if cmd == P.LGOOD else st["nbuf"])
         if sub != "ok":
             return sub
         if cmd == P.LGOOD:
@@ -1166,7 +1315,7 @@ class TxBench:
             # an LBAD answers a (corrupted) header the partner received and has not acknowledged
             return 0 if st["bringup"] and st["sent_unacked"] and not st["p_ignoring"] else None
         if cmd == P.LCRD:
-            if not st["bringup"] or st["given"] - st["held"] >= 4:
+            if not st["bringup"] or st["given"] - st["held"] >= st["nbuf"]:
                 return None
             return st["letter"]
         return 0
@@ -1188,7 +1337,7 @@ class TxBench:
                 st["held"] += 1            # the partner now holds this header in a buffer it may free later
         elif pc["cmd"] == P.LCRD:
             if pc["sub"] == st["letter"]:
-                st["letter"] = (st["letter"] + 1) % 4
+                st["letter"] = (st["letter"] + 1) % st["nbuf"]
                 st["given"] += 1
         elif pc["cmd"] == P.LBAD:
             info["lbad_t"].append(tag["t"])
@@ -1246,6 +1395,8 @@ def tx_script_from_behaviour(beh, rng):
         k = e["e"]
         if k == "up":
             s.append(("up",))
+        elif k == "dreset":
+            s += [("domain_reset", rng.choice([1, 1, 3])), ("wait", 2)]
         elif k == "down":
             s += [("quiet",), ("down",), ("wait", 3)]
         elif k == "lgood":
@@ -1338,6 +1489,9 @@ def tx_classify(trace, matched, status, meta):
     k = matched if status != "ok" else matched + 1
     pre = trace[:k]
     pattern = "other"
+    _nb = (meta or {}).get("buffer_count")
+    if _nb and _nb & (_nb - 1):
+        return {"clause": status, "pattern": "buffer_count_not_power_of_two", "group": "config"}
     if status.startswith("env_"):
         raise tlc.TLCError("stimulus left the Env assumptions (%s) at step %d: %s" % (status, k, pre[-3:]))
     acc_t = [r["t"] for r in pre if r["e"] == "acc"]
@@ -1361,6 +1515,9 @@ def tx_classify(trace, matched, status, meta):
                 last_rr = r["t"]
             if r["e"] == "hps" and retries > 1 and r["t"] == last_rr + 1:
                 pattern = "lbad_during_retransmission"     # latched in the cycle the strobe arrived
+    nb = (meta or {}).get("buffer_count")
+    if nb and nb & (nb - 1):
+        pattern = "buffer_count_not_power_of_two"
     return {"clause": status, "pattern": pattern}
 
 
@@ -1435,14 +1592,68 @@ def check_C39(rep):
                              lrty_delay=rep.rng.choice([(3, 4), (3, 12), (10, 30)]))
         items.append((tr, {"origin": "random", "n": i}))
     items += tx_sweeps(bench, rep, quick)
+    # the `ss` clock-domain reset mid-operation (idle, header queued, header in flight, during a retry)
+    for i in range(10 if quick else 60):
+        n = 4 + i % 9
+        script = tx_bringup(rep.rng, 4) + [("offer", {}, 30), ("offer", {}, 30), ("wait", n)] + \
+            ([("lc", P.LBAD, "ok"), ("wait", i % 7)] if i % 2 else []) + [("domain_reset", 1 + i % 3), ("wait", 3)] + \
+            tx_bringup(rep.rng, 2)[1:] + [("offer", {}, 30), ("quiet",), ("lc", P.LGOOD, "ok"), ("quiet",)]
+        tr, info = bench.run(script, rep.rng, stall_p=rep.rng.choice([0, 0.4]))
+        items.append((tr, {"origin": "domain-reset", "n": i}))
+        rep.nontriv(("domain-reset", n, i % 2, 1 + i % 3))
+    # other constructor configurations: buffer_count and ss_clock_frequency (credit timeout in cycles)
+    alt_groups = []
+    cfgs = _rotate(TX_ALT_CONFIGS[:3], rep.seed, 1) if quick else list(TX_ALT_CONFIGS)
+    if (3, 1e6) not in cfgs:
+        cfgs.append((3, 1e6))
+    for nb, freq in cfgs:
+        b2 = TxBench(buffer_count=nb, ss_clock_frequency=freq)
+        g = []
+        fill = tx_bringup(rep.rng, nb) + [("offer", {}, 30)] * (nb + 1) + [("quiet",)] + \
+            [("lc", P.LGOOD, "ok"), ("lc", P.LCRD, "ok"), ("offer", {}, 30)] * (2 * nb + 9) + \
+            [("lc", P.LBAD, "ok"), ("quiet",)] + [("lc", P.LGOOD, "ok")] * nb + [("quiet",)]
+        g.append((b2.run(fill, rep.rng)[0], {"origin": "config-use-all-credits-and-wrap", "buffer_count": nb,
+                                             "ss_clock_frequency": freq}))
+        for i in range((4 if nb & (nb - 1) else 12) if quick else 40):
+            tr, info = b2.run(tx_random_script(rep.rng, 30, downs=(i % 3 == 0)), rep.rng,
+                              stall_p=rep.rng.choice([0, 0.3]))
+            g.append((tr, {"origin": "config-random", "buffer_count": nb, "ss_clock_frequency": freq, "n": i}))
+        for tr, _ in g:
+            _tx_nontriv(rep, tr)
+        rep.nontriv(("config", nb, freq))
+        rep.add_eval(b2.cycles)
+        alt_groups.append((nb, b2.timeout_cycles, g))
+    # the credit timer at a clock where it is reached: 20 kHz -> 101 cycles
+    b3 = TxBench(ss_clock_frequency=TX_TIMEOUT_FREQ)
+    T = b3.timeout_cycles
+    g = []
+    for i, (w1, w2) in enumerate([(T + 12, 0), (T // 2, T + 12), (T - 30, 0), (T + 12, 5)] if quick else
+                                 [(T + 12, 0), (T // 2, T + 12), (T - 30, 0), (T + 12, 5), (T // 3, T + 12), (T - 8, 0),
+                                  (T + 2, 0), (10, T + 12)]):
+        script = tx_bringup(rep.rng, 4) + [("offer", {}, 30), ("offer", {}, 30), ("wait", w1), ("lc", P.LGOOD, "ok")] + \
+            ([("wait", w2)] if w2 else []) + [("lc", P.LGOOD, "ok"), ("quiet",), ("down",), ("wait", 4)] + \
+            tx_bringup(rep.rng, 2) + [("offer", {}, 30), ("wait", 20), ("down",), ("wait", T + 20)] + \
+            tx_bringup(rep.rng, 2) + [("quiet",)]
+        tr, info = b3.run(script, rep.rng, stall_p=0.3 if i % 2 else 0.0)
+        g.append((tr, {"origin": "credit-timeout", "ss_clock_frequency": TX_TIMEOUT_FREQ, "timeout_cycles": T,
+                       "waits": (w1, w2)}))
+        rep.nontriv(("credit-timeout", w1, w2))
+    for tr, _ in g:
+        _tx_nontriv(rep, tr)
+    rep.add_eval(b3.cycles)
+    alt_groups.append((4, T, g))
     for tr, _ in items:
         _tx_nontriv(rep, tr)
     rep.add_eval(bench.cycles)
     rep.sample({"origin": items[0][1], "first_events": items[0][0][:12]})
-    cfg = tlc.render_cfg(_cfg("SsTxTrace.cfg.tmpl"), {"NBuf": 4})
+    cfg = tlc.render_cfg(_cfg("SsTxTrace.cfg.tmpl"), {"NBuf": 4, "Timeout": 0})
     ph.mark("simulate+drive (%d traces, %d cycles)" % (len(items), bench.cycles))
     validate_group(rep, SPEC_DIR, "SsTxTrace", cfg, items, classify=tx_classify, what_prefix="PacketTransmitter ",
                    chunk=2000)
+    for nb, tmo, g in alt_groups:
+        cfg = tlc.render_cfg(_cfg("SsTxTrace.cfg.tmpl"), {"NBuf": nb, "Timeout": tmo})
+        validate_group(rep, SPEC_DIR, "SsTxTrace", cfg, g, classify=tx_classify,
+                       what_prefix="PacketTransmitter(buffer_count=%d, credit timeout %d cycles) " % (nb, tmo), chunk=2000)
     ph.mark("trace-validation")
     ph.done()
 
